@@ -157,6 +157,39 @@ func (s *Script) Rollback(m mark) {
 	}
 }
 
+// expandDefs replaces, in an SMT term, every symbol of the given set that was introduced by define-fun with its
+// definition (recursively): a term over symbols defined inside a region becomes a term over the symbols the
+// definitions bottom out in.
+func (s *Script) expandDefs(term string, set map[string]bool, keep map[string]bool, depth int) string {
+	if depth > 12 {
+		return term
+	}
+	n := parseSx(term)
+	if n == nil {
+		return term
+	}
+	var walk func(n *sx) *sx
+	walk = func(n *sx) *sx {
+		if n.list == nil {
+			if set[n.atom] && !keep[n.atom] {
+				if ln, ok := s.declared[n.atom]; ok && ln < len(s.Lines) {
+					d := parseSx(s.Lines[ln])
+					if d != nil && len(d.list) == 5 && d.list[0].atom == "define-fun" && d.list[1].atom == n.atom {
+						return parseSx(s.expandDefs(d.list[4].String(), set, keep, depth+1))
+					}
+				}
+			}
+			return n
+		}
+		m := &sx{}
+		for _, c := range n.list {
+			m.list = append(m.list, walk(c))
+		}
+		return m
+	}
+	return walk(n).String()
+}
+
 // definedSince reports the symbols declared at or after the mark.
 func (s *Script) definedSince(m mark) map[string]bool {
 	out := map[string]bool{}
